@@ -25,7 +25,9 @@
 (*   applied  index of the last operation applied (or covered by the       *)
 (*            restored snapshot)                                           *)
 (*   mode     "live" | "boot" (restarted, snapshot not yet restored) |     *)
-(*            "replay";  nrep = operations replayed since the restart      *)
+(*            "replay" | "catchup" (live server that installed a snapshot  *)
+(*            and applies the entries behind it);  nrep = operations       *)
+(*            replayed since the restart                                   *)
 (*   sref     Snapshot() result not yet persisted: [has, idx, live, frozen,*)
 (*            groups]: partition records of the streams in `live` are      *)
 (*            still the live ones (Persist will see their CURRENT values), *)
@@ -99,7 +101,11 @@ ApplyCreate(o, e, rec) ==
         [St EXCEPT !.streams = Put(ss, o.s, [tomb |-> FALSE, parts |-> [i \in 1..o.n |-> NewPart(o.R, o.ldr, e, rec)]]),
                    !.groups = gg,
                    \* a live create is followed by data written under this incarnation
-                   !.disk = IF rec THEN WithDirs(disk, o.s, o.n) ELSE Put(disk, o.s, [i \in 1..o.n |-> e])]
+                   \* (directories that are already there - possible when a live server installed a
+                   \* snapshot - are opened, partition directories beyond o.n stay)
+                   !.disk = IF rec THEN WithDirs(disk, o.s, o.n)
+                            ELSE Put(disk, o.s, [i \in DOMAIN WithDirs(disk, o.s, o.n)[o.s] |->
+                                                    IF i <= o.n THEN e ELSE disk[o.s][i]])]
   IN IF o.s \notin DOMAIN streams THEN fresh(streams, groups)
      ELSE IF ~rec \/ ~streams[o.s].tomb THEN Err("stream_exists")
      \* un-tombstone: the old stream object is closed and removed (which
@@ -262,18 +268,50 @@ AddMembers(g, ms, pc) == IF ms = <<>> THEN g ELSE AddMembers(GAddMember(g, Head(
 \* Server.Restore: every stream and group of the snapshot is added as
 \* "recovered"; the groups are rebuilt by adding the members one by one in
 \* the order of the snapshot
+RestoreEffect ==
+  LET ss == [s \in DOMAIN snap.streams |-> [tomb |-> FALSE, parts |-> [i \in DOMAIN snap.streams[s] |-> FromProto(snap.streams[s][i])]]]
+      dd == [s \in DOMAIN disk \cup DOMAIN ss |->
+               IF s \in DOMAIN ss THEN WithDirs(disk, s, Len(ss[s].parts))[s] ELSE disk[s]]
+  IN /\ streams' = ss /\ disk' = dd
+     /\ groups' = [g \in GroupIds |-> IF g \in DOMAIN snap.groups
+                     THEN AddMembers(NewGroup(snap.groups[g].coord, snap.groups[g].epoch), snap.groups[g].members, PC(ss))
+                     ELSE NoGroup]
+     /\ applied' = snap.idx
+
 DoRestore ==
   /\ mode = "boot" /\ snap.has
-  /\ LET ss == [s \in DOMAIN snap.streams |-> [tomb |-> FALSE, parts |-> [i \in DOMAIN snap.streams[s] |-> FromProto(snap.streams[s][i])]]]
-         dd == [s \in DOMAIN disk \cup DOMAIN ss |->
-                  IF s \in DOMAIN ss THEN WithDirs(disk, s, Len(ss[s].parts))[s] ELSE disk[s]]
-     IN /\ streams' = ss /\ disk' = dd
-        /\ groups' = [g \in GroupIds |-> IF g \in DOMAIN snap.groups
-                        THEN AddMembers(NewGroup(snap.groups[g].coord, snap.groups[g].epoch), snap.groups[g].members, PC(ss))
-                        ELSE NoGroup]
-  /\ applied' = snap.idx /\ mode' = "replay"
+  /\ RestoreEffect
+  /\ mode' = "replay"
   /\ obs' = [a |-> "Restore", err |-> ""]
   /\ UNCHANGED <<lastPub, nrep, sref, snap, pre>>
+
+\* A LIVE server is handed a snapshot (Raft InstallSnapshot on a follower whose
+\* log was compacted away): Server.Restore on a server that HAS state.  "The FSM
+\* must discard all previous state": whatever it held, afterwards it holds the
+\* snapshot (metadata.Reset closes streams and groups; directories stay).  The
+\* entries behind the snapshot then arrive as NEW entries (recovered = FALSE:
+\* the replay range was determined at start-up) and nothing calls
+\* finishedRecovery.  Because the previous state is discarded, the step is
+\* modelled on the server's own last persisted snapshot.
+DoInstall ==
+  /\ mode = "live" /\ snap.has /\ ~sref.has
+  /\ pre' = [streams |-> streams, groups |-> groups, disk |-> disk]
+  /\ RestoreEffect
+  /\ mode' = "catchup"
+  /\ obs' = [a |-> "Install", err |-> ""]
+  /\ UNCHANGED <<lastPub, nrep, sref, snap>>
+
+DoCatchup(o) ==
+  /\ mode = "catchup"
+  /\ Install(ApplyOp(o, applied + 1, FALSE), o.op)
+  /\ applied' = applied + 1
+  /\ UNCHANGED <<mode, nrep, snap, pre>>
+
+DoCaughtUp ==
+  /\ mode = "catchup"
+  /\ mode' = "live"
+  /\ obs' = [a |-> "CaughtUp", err |-> ""]
+  /\ UNCHANGED <<streams, groups, lastPub, disk, applied, nrep, sref, snap, pre>>
 
 Tombs == {s \in DOMAIN streams : streams[s].tomb}
 
@@ -310,13 +348,13 @@ Meta(p) == [replicas |-> p.replicas, isr |-> p.isr, leader |-> p.leader, lepoch 
             epoch |-> p.epoch, paused |-> p.paused, ppaused |-> p.ppaused, ro |-> p.ro]
 MetaOf(ss) == [s \in DOMAIN ss |-> [tomb |-> ss[s].tomb, parts |-> [i \in DOMAIN ss[s].parts |-> Meta(ss[s].parts[i])]]]
 \* after recovery every partition that is not paused has been started
-RS_Started == (mode' = "live" /\ mode = "replay") =>
+RS_Started == (mode' = "live" /\ mode \in {"replay", "catchup"}) =>
    \A s \in DOMAIN streams' : \A i \in DOMAIN streams'[s].parts : streams'[s].parts[i].paused \/ ~streams'[s].parts[i].rec
 \* ... which finishedRecovery does whenever it is called
-RS_StartedByFinish == nrep > 0 => RS_Started
+RS_StartedByFinish == (nrep > 0 /\ mode = "replay") => RS_Started
 RoEffOf(ss) == [s \in DOMAIN ss |-> [i \in DOMAIN ss[s].parts |-> ss[s].parts[i].roeff]]
 
-BackLive == mode' = "live" /\ mode = "replay"
+BackLive == mode' = "live" /\ mode \in {"replay", "catchup"}
 
 RS_Streams == BackLive => MetaOf(streams') = MetaOf(pre.streams)
 RS_RoEff == BackLive => (DOMAIN streams' = DOMAIN pre.streams => RoEffOf(streams') = RoEffOf(pre.streams))
